@@ -35,6 +35,20 @@ func (m *Mutex) Unlock() {
 	m.real.Unlock()
 }
 
+// TryLock (Go 1.18): a schedule point, then the lock is taken iff the model says it is free.
+func (m *Mutex) TryLock() bool {
+	if vsched.Active() {
+		vsched.Point()
+		if m.held {
+			return false
+		}
+		m.held = true
+		m.real.Lock()
+		return true
+	}
+	return m.real.TryLock()
+}
+
 // RWMutex is readers-xor-writer without writer preference.
 type RWMutex struct {
 	real    sync.RWMutex
@@ -70,6 +84,32 @@ func (m *RWMutex) RUnlock() {
 		m.readers--
 	}
 	m.real.RUnlock()
+}
+
+func (m *RWMutex) TryLock() bool {
+	if vsched.Active() {
+		vsched.Point()
+		if m.writer || m.readers > 0 {
+			return false
+		}
+		m.writer = true
+		m.real.Lock()
+		return true
+	}
+	return m.real.TryLock()
+}
+
+func (m *RWMutex) TryRLock() bool {
+	if vsched.Active() {
+		vsched.Point()
+		if m.writer {
+			return false
+		}
+		m.readers++
+		m.real.RLock()
+		return true
+	}
+	return m.real.TryRLock()
 }
 
 func (m *RWMutex) RLocker() sync.Locker { return (*rlocker)(m) }
